@@ -100,4 +100,60 @@ package topics
 //@   ensures[C06:wild-alone] err == nil && len(level) > 1 ==> forall(0, len(level), func(j int) bool { return level[j] != '#' && level[j] != '+' })
 //@   ensures[C06:mwc-last] err == nil && len(topic) > 0 && topic[0] == '#' ==> len(level) == len(topic) && len(rem) == 0
 //@   ensures[C06:dollar] len(topic) > 0 && topic[0] == '$' ==> err != nil
+//@   ensures[C06:progress] err == nil && len(topic) > 0 ==> len(rem) < len(topic)
 //@   modifies nothing
+
+// ================================================================ the tries (C06, C08)
+// The subscription and retained-message stores are tries of Go maps. Every function is specified by what it does at
+// its own node and by the recursive call it makes (one-step contracts): at the last level the node's own lists or
+// message change as stated and nothing else does; otherwise exactly one recursive call is made, on the child for the
+// next level (created if absent), with the remaining levels and the same arguments. That these steps compose to the
+// MQTT matching relation over whole filters is an induction over the levels that is argued, not machine-checked;
+// the bounded stand-in (bounded/c06_test.go) checks the composition on small tries.
+
+// Type invariant of the child maps of the retained trie: every child link leads to a node that has a map.
+//@ define vdefRTrie(m)
+//@   is allentries(m, func(k string, v *rnode) bool { return v != nil && v.rnodes != nil })
+
+// What rinsert needs of the message it stores (the preconditions of PublishMessage.Len/Encode).
+//@ define vdefPubIn(msg)
+//@   is msg != nil && len(msg.mtypeflags) == 1 && (len(msg.packetID) == 0 || len(msg.packetID) == 2) && len(msg.topic) <= 65535 && len(msg.payload) <= 100000000
+//@      && message.Type(msg.mtypeflags[0]>>4) == message.PUBLISH
+//@      && disjoint(msg.packetID, msg.topic) && disjoint(msg.packetID, msg.payload) && disjoint(msg.packetID, msg.mtypeflags)
+
+//@ func newRNode
+//@   ensures result != nil && fresh(result) && result.rnodes != nil && fresh(result.rnodes) && emptymap(result.rnodes) && result.msg == nil && len(result.buf) == 0 && cap(result.buf) == 0
+//@   modifies fields(result)
+
+// rinsert (C08): at the last level the node gets its own copy of the message - a new message object decoded over a
+// new buffer that holds the message's encoding - with the same flags, topic and payload; nothing that existed before
+// the call is written except the node's two fields (and the bookkeeping fields Len/Encode set on msg), so message
+// objects and buffers handed out by earlier lookups keep their content whatever is retained later.
+//@ func (*rnode).rinsert
+//@   results err
+//@   requires rn != nil && rn.rnodes != nil && vdefRTrie(rn.rnodes) && vdefPubIn(msg)
+//@   atcall (*rnode).rinsert requires[C08:descend] callee_rn == rn.rnodes[level] && haskey(rn.rnodes, level) && sameslice(callee_topic, rem) && callee_msg == msg && len(rem) < len(topic)
+//@   ensures[inv] vdefRTrie(rn.rnodes)
+//@   ensures[C08:stored-copy] len(topic) == 0 && err == nil ==> rn.msg != nil && fresh(rn.msg) && fresh(arr(rn.buf)) && len(rn.msg.mtypeflags) == 1 && !rn.msg.dirty && message.vdefPubParsed(rn.msg)
+//@   ensures[lemma-varint] len(topic) == 0 && err == nil && old(msg.dirty) ==> message.vspecVarintN(rn.msg.dbuf, 1) == message.vspecVarintLen(int(msg.remlen))
+//@   ensures[lemma-varint1] len(topic) == 0 && err == nil && old(msg.dirty) && message.vspecVarintLen(int(msg.remlen)) == 1 ==> int(rn.msg.dbuf[1]) == int(msg.remlen)
+//@   ensures[lemma-varint2] len(topic) == 0 && err == nil && old(msg.dirty) && message.vspecVarintLen(int(msg.remlen)) == 2 ==> int(rn.msg.dbuf[1]) == int(msg.remlen)%128+128 && int(rn.msg.dbuf[2]) == int(msg.remlen)/128
+//@   ensures[lemma-varint3] len(topic) == 0 && err == nil && old(msg.dirty) && message.vspecVarintLen(int(msg.remlen)) == 3 ==> int(rn.msg.dbuf[1]) == int(msg.remlen)%128+128 && int(rn.msg.dbuf[2]) == (int(msg.remlen)/128)%128+128 && int(rn.msg.dbuf[3]) == int(msg.remlen)/16384
+//@   ensures[lemma-varint4] len(topic) == 0 && err == nil && old(msg.dirty) && message.vspecVarintLen(int(msg.remlen)) == 4 ==> int(rn.msg.dbuf[1]) == int(msg.remlen)%128+128 && int(rn.msg.dbuf[2]) == (int(msg.remlen)/128)%128+128 && int(rn.msg.dbuf[3]) == (int(msg.remlen)/16384)%128+128 && int(rn.msg.dbuf[4]) == int(msg.remlen)/2097152
+//@   ensures[lemma-varint] len(topic) == 0 && err == nil && old(msg.dirty) ==> message.vspecVarintVal(rn.msg.dbuf, 1) == int(msg.remlen)
+//@   ensures[lemma-topiclen] len(topic) == 0 && err == nil && old(msg.dirty) ==> message.vspecBE16(rn.msg.dbuf, message.vspecH(rn.msg.dbuf)) == len(msg.topic) && len(rn.msg.topic) == len(msg.topic) && len(rn.msg.payload) == len(msg.payload)
+//@   ensures[lemma-clean] len(topic) == 0 && err == nil && !old(msg.dirty) && message.vdefPubParsed(msg) ==> len(rn.msg.dbuf) == len(msg.dbuf) && rn.msg.dbuf[0] == msg.dbuf[0] && message.vspecH(rn.msg.dbuf) == message.vspecH(msg.dbuf) && message.vspecBE16(rn.msg.dbuf, message.vspecH(rn.msg.dbuf)) == message.vspecBE16(msg.dbuf, message.vspecH(msg.dbuf)) && len(rn.msg.topic) == len(msg.topic) && len(rn.msg.payload) == len(msg.payload)
+//@   ensures[C08:stored-content] len(topic) == 0 && err == nil && (old(msg.dirty) || message.vdefPubParsed(msg)) ==> rn.msg.mtypeflags[0] == old(msg.mtypeflags[0]) && eqbytes(rn.msg.payload, msg.payload) && eqbytes(rn.msg.topic, msg.topic)
+//@   ensures[C08:failed-keeps] len(topic) == 0 && err != nil ==> rn.msg == old(rn.msg) && sameslice(rn.buf, old(rn.buf))
+//@   ensures[C08:leaf-only] len(topic) == 0 ==> rn.rnodes == old(rn.rnodes)
+//@   modifies allfields(rnode), allmaps(map[string]*rnode), msg.remlen, msg.dirty, msg.packetID, elems(msg.packetID), message.gPacketID, gfield(0, "encn"), gfield(0, "encarr"), gfield(0, "encoff"), gfield(0, "encAt")
+
+// rremove (C08): at the last level the node's message is dropped; on the way back a child is unlinked exactly when
+// it holds no message and has no children left.
+//@ func (*rnode).rremove
+//@   results err
+//@   requires rn != nil && rn.rnodes != nil && vdefRTrie(rn.rnodes)
+//@   atcall (*rnode).rremove requires[C08:descend] callee_rn == rn.rnodes[level] && haskey(rn.rnodes, level) && sameslice(callee_topic, rem) && len(rem) < len(topic)
+//@   ensures[inv] vdefRTrie(rn.rnodes)
+//@   ensures[C08:cleared] len(topic) == 0 ==> err == nil && rn.msg == nil && len(rn.buf) == 0 && rn.rnodes == old(rn.rnodes)
+//@   modifies allfields(rnode), allmaps(map[string]*rnode)
